@@ -105,6 +105,8 @@ def drain(it, li):
 def m_vec_deref(it, a, ty, callee):
     p = a[0]
     v = it.load(p)
+    if isinstance(v, Model) and not isinstance(v, (IterModel,)) and not hasattr(v, 'keys') and v.fields == ():
+        return p            # opaque token standing for a Vec<u8> (e.g. a signature): the slice *is* the token
     return Ptr(p.cell, p.path, (0, len(v.fields)))
 
 
